@@ -101,6 +101,34 @@ Fixpoint rs_loop {S A R} (body : S -> A -> res (flow S S R)) (s : S) (l : list A
     end
   end.
 
+(* `while cond { body }`.  Rust's loop has no bound; the translation runs it on explicit fuel and a loop that
+   is still running when the fuel is gone is a [Panic site_fuel].  A translated function that contains a
+   `while` takes the fuel as its first argument, and its tie theorem is stated for every fuel above a bound
+   computed from the arguments: the theorem then also says that the loop ends within that bound. *)
+Definition site_fuel : nat := 907.
+Fixpoint rs_while {S R} (fuel : nat) (c : S -> res bool) (body : S -> res (flow S S R)) (s : S) : res (flow S unit R) :=
+  match fuel with
+  | O => Panic site_fuel
+  | S fu =>
+    t <- c s ;;
+    if t then
+      f <- body s ;;
+      match f with
+      | Go s' | Cnt s' => rs_while fu c body s'
+      | Brk s' => Ok (Go s')
+      | Ret r => Ok (Ret r)
+      end
+    else Ok (Go s)
+  end.
+
+(* `v[a..b].reverse()`: panics when a > b or b > len *)
+Definition rs_reverse_range {A} (l : list A) (a b : nat) : res (list A) :=
+  if ((a <=? b) && (b <=? length l))%nat
+  then Ok (firstn a l ++ rev (firstn (b - a) (skipn a l)) ++ skipn b l)
+  else Panic site_index.
+(* `.enumerate()` *)
+Definition rs_enumerate {A} (l : list A) : list (nat * A) := combine (seq 0 (length l)) l.
+
 (* a function body ends in a `return` *)
 Definition rs_unflow {R} (f : flow unit unit R) : res R :=
   match f with Ret r => Ok r | _ => Panic site_flow end.
